@@ -17,6 +17,7 @@ import (
 	"github.com/go-jose/go-jose/v3"
 
 	"github.com/ory/fosite"
+	"github.com/ory/fosite/compose"
 	"github.com/ory/fosite/handler/oauth2"
 	"github.com/ory/fosite/token/jwt"
 	"github.com/ory/fosite/zz_verif_h/zz"
@@ -471,4 +472,53 @@ func ZZ_C06_jwt_keyfunc() {
 			zz.Cover("keyfunc:hs256-key-confusion-refused", true)
 		}
 	}
+}
+
+// ZZ_C06_jwt_key_rotation: the strategies as the compose package wires them (NewOAuth2JWTStrategy /
+// NewOpenIDConnectStrategy take a key GETTER). "Accepted only with a valid signature from the configured key":
+// after the getter starts returning another key, tokens signed by the retired key are refused and tokens
+// minted from then on verify under the new key.
+func ZZ_C06_jwt_key_rotation() {
+	ctx := context.Background()
+	ks := kinds()
+	kind := ks[zz.Choice("kind", len(ks))]
+	priv1, pub1 := zzjwt.GenKey(kind)
+	priv2, pub2 := zzjwt.GenKey(kind)
+	current := priv1
+	getter := func(context.Context) (interface{}, error) { return current, nil }
+	cfg := &fosite.Config{ScopeStrategy: fosite.ExactScopeStrategy, AccessTokenIssuer: "https://as.example", GlobalSecret: []byte("0123456789abcdef0123456789abcdef-global")}
+	strat := compose.NewOAuth2JWTStrategy(getter, compose.NewOAuth2HMACStrategy(cfg), cfg)
+	mint := func() string {
+		sess := &oauth2.JWTSession{
+			JWTClaims: &jwt.JWTClaims{Subject: "peter", Extra: map[string]interface{}{}},
+			JWTHeader: &jwt.Headers{Extra: map[string]interface{}{}},
+			ExpiresAt: map[fosite.TokenType]time.Time{fosite.AccessToken: time.Now().Add(time.Hour)},
+		}
+		req := fosite.NewAccessRequest(sess)
+		req.Client = &fosite.DefaultClient{ID: "c1"}
+		req.GrantedScope = []string{"photos"}
+		tok, _, err := strat.GenerateAccessToken(ctx, req)
+		zz.Assume(err == nil)
+		return tok
+	}
+	verifiesUnder := func(tok string, pub interface{}) bool {
+		_, err := decodeWith(tok, pub)
+		return err == nil
+	}
+	old := mint()
+	zz.Assert(strat.ValidateAccessToken(ctx, nil, old) == nil, "rotation: a token of the configured key is accepted")
+	zz.Assert(verifiesUnder(old, pub1), "rotation: the first token verifies under the first key")
+	if zz.Choice("rotated", 2) == 1 {
+		current = priv2
+		zz.Cover("rotation:key-replaced", true)
+		zz.Assert(strat.ValidateAccessToken(ctx, nil, old) != nil, "rotation: a token signed by the retired key is refused")
+		fresh := mint()
+		zz.Assert(verifiesUnder(fresh, pub2) && !verifiesUnder(fresh, pub1), "rotation: new tokens are signed with the new key")
+		zz.Assert(strat.ValidateAccessToken(ctx, nil, fresh) == nil, "rotation: a token of the new key is accepted")
+	}
+}
+
+// decodeWith verifies a compact JWT under one public key (independent of the strategy under check).
+func decodeWith(tok string, pub interface{}) (*jwt.Token, error) {
+	return jwt.ParseWithClaims(tok, jwt.MapClaims{}, func(*jwt.Token) (interface{}, error) { return pub, nil })
 }
